@@ -74,7 +74,10 @@ def gen_index(i: int, seed: int, tier: str) -> dict[str, Any]:
     for k, (a, p, b) in enumerate(pop):
         devs.append({"addr": a, "prog": p, "beh": b, "serial": k + 1,
                      "lat": rng.choice([0.005, 0.02, 0.3, 1.5, 2.5]), "free_level": rng.choice([0, 3, 15]),
-                     "key_level": rng.choice([0, 1, 2, 15])})
+                     "key_level": rng.choice([0, 1, 2, 15]),
+                     # the T_ACK of the first transmission of a request may get lost (its answer still arrives): the request is
+                     # repeated and acknowledged then
+                     "ack": rng.choice(["normal", "normal", "normal", "lost_once"])})
     return {"seed": seed, "tier": "S", "config": {"proc": proc, "batch": 1, "foreign_serial_answer": rng.random() < 0.5,
                                                    "target_serial": rng.choice([1, 2, 3, 9]),
                                                    # delay of the L_Data.con of every frame sent: a device's answer may
@@ -108,6 +111,10 @@ def run(plan: dict[str, Any]) -> dict[str, Any]:
         dv = bus.add(ia=ADDRS[d["addr"]], serial=int(d["serial"]).to_bytes(6, "big"),
                      prog=d["prog"], behaviour=d["beh"], free_level=d["free_level"], levels={0x11223344: d["key_level"]})
         dv._lat = d["lat"]
+        if d.get("ack", "normal") != "normal":
+            dv.script = dict(dv.script, ack=d["ack"])
+            dv.base_script = dict(dv.script)
+            R.extra_faults["device_first_ack_lost"] += 1
         devs.append(dv)
     bus.lat_of = lambda dev: getattr(dev, "_lat", 0.02)
     T = ADDRS["T"]
